@@ -281,6 +281,9 @@ def factory(shape, body="plain"):
         ret = f"return ('r', MID, [recurse(e) for e in {first}])"
     elif body == "ret":
         ret = "return D['__ret']"
+    elif body == "ret-rw":
+        # mentions recurse (never evaluated), so the library rewrites and recompiles this method
+        ret = "return D['__ret'] if LOG is not None else recurse()"
     elif body == "raise":
         ret = "raise D['__exc']"
     else:
